@@ -79,7 +79,7 @@ def main():
         "setup_cmd": "python3 -m sim.build checked release checked+hooks release+hooks release+debug_stress_gc release+safe_active_fiber+debug_stress_gc",
         "hooks": {
             "guard": "verif_hooks",
-            "enable": "cargo feature `verif_hooks` of the yarel crate; the runner crate's feature `hooks` turns it on (runner built as <profile>+hooks). Checks C08/C09/C14/C15/C10 run WITHOUT the feature (their seams are public API).",
+            "enable": "cargo feature `verif_hooks` of the yarel crate; the runner crate's feature `hooks` turns it on (runner built as <profile>+hooks). The printer / loader / embedding-API seams are public API and need no hook: every check also runs builds WITHOUT the feature (C10 only such builds); the +hooks builds add collection pacing, quarantine with the use-after-reclaim monitor and heap statistics.",
             "baseline_off_cmd": "cd /repo && cargo nextest run --workspace --no-fail-fast --offline || cargo test --workspace --no-fail-fast --offline",
             "source_commits": [c.split()[0] for c in commits],
             "add_only": True,
